@@ -38,6 +38,16 @@ def diff_case(draw):
     return case
 
 
+@st.composite
+def large_case(draw):
+    """Wider and deeper definitions than the main search draws (up to 14 members per level, depth 3, fixed counts up to 20)."""
+    ptrs = ("uint8", "uint16", "uint32", "uint64")
+    case = draw(gens.input_case(gens.opts(max_fields=14, max_depth=3, max_len=20, long_strings=False, null_structs=True, multidim_dyn=True, bits_char=True, bits_odd=True, wide_bits=True), cfg_kw={"compiled": True, "ptrs": ptrs}))
+    case["raw"] = draw(st.binary(max_size=40)).hex()
+    case["large"] = True
+    return case
+
+
 FIELD_KINDS = [
     ("uint8", S("uint8")), ("uint16", S("uint16")), ("uint32", S("uint32")), ("int64", S("int64")), ("char", S("char")),
     ("wchar", S("wchar")), ("uint24", S("uint24")), ("float", S("float")),
@@ -135,6 +145,10 @@ def run_case(case, ctx):
         raise Violation("layout-differs", f"compiled {lc} vs interpreted {li}: {common.describe(case)}")
     compiled = bool(getattr(Tc, "__compiled__", False))
     ctx.count("compiled:yes" if compiled else "compiled:fallback")
+    if case.get("large"):
+        nroot = len(case["defs"][-1]["t"]["fields"])
+        ctx.count("large:root-members:" + ("1-4" if nroot <= 4 else "5-8" if nroot <= 8 else "9-14"))
+        ctx.count("large:input-bytes:" + ("<64" if len(case["data"]) < 128 else "64-255" if len(case["data"]) < 512 else ">=256"))
     full = bytes.fromhex(case["data"])
     ref = common.reference(case, full)
     last_data = None
@@ -374,12 +388,14 @@ def stages(tier):
     if tier == "quick":
         return [
             HypStage("diff", diff_case, examples=500, shards=10),
+            HypStage("large", large_case, examples=120, shards=4),
             HypStage("custom-types", custom_case, examples=300, shards=2),
             HypStage("explicit-offsets", offsets_case, examples=400, shards=2),
             EnumStage("triples", triple_cases, shards=6, scope="every ordered triple of 17 field kinds (incl. enum-, char- and 24-bit-backed bit-fields) x {packed, aligned} (~9800 definitions) x full input, all cut points, one raw input"),
         ]
     return [
         HypStage("diff", diff_case, examples=6000, shards=16),
+        HypStage("large", large_case, examples=1500, shards=8),
         HypStage("custom-types", custom_case, examples=6000, shards=4),
         HypStage("explicit-offsets", offsets_case, examples=8000, shards=4),
         EnumStage("triples", triple_cases, shards=8, scope="every ordered triple of 17 field kinds (incl. enum-, char- and 24-bit-backed bit-fields) x {packed, aligned} (~9800 definitions) x full input, all cut points, one raw input"),
